@@ -366,7 +366,7 @@ let check (case : Sexp.t) (res : Sexp.t) : [ `Ok | `Mismatch of string | `Proper
            | None, Some want ->
              let named = List.filter_map (fun m ->
                  match Str.bounded_split (Str.regexp_string "\n\n") m 2 with
-                 | head :: _ when has head "not in scope" || has head "already exists" -> between_ticks head
+                 | head :: _ -> between_ticks head      (* whatever its wording: the diagnostic names the identifier *)
                  | _ -> None) msgs in
              if List.mem want named then None
              else Some (Printf.sprintf "the scoping fault at `%s` of this minimal program is not reported (stage %s; diagnostics name %s)" want stage
